@@ -103,6 +103,12 @@ class DocActions(object):
       self._engine.trigger_columns_changed()
 
   def ReplaceTableData(self, table_id, row_ids, column_values):
+    # Like [Bulk]AddRecord, fail on unknown columns (loading the data would silently skip them,
+    # while the action reported to the outside would still include them).
+    table = self._engine.tables[table_id]
+    for col_id in column_values:
+      table.get_column(col_id)
+
     old_data = self._engine.fetch_table(table_id, formulas=False)
     self._engine.out_actions.undo.append(actions.ReplaceTableData(*old_data))
     self._engine.out_actions.summary.remove_records(table_id, old_data[1])
